@@ -101,6 +101,12 @@ def remapGraph (H : LGraph) (pairs : List (Nat × Nat)) : Except Err LGraph :=
     let H' := H.relabel (pairMap pairs)
     if decide H'.ids.Nodup then .ok H' else .error .collision
 
+/-- `CanonRSMI.remap_graph(H, node_map)`, list-of-int branch (`isinstance(node_map[0], int)`):
+`mapping = {old: new for new, old in enumerate(node_map, start=1)}`, i.e. the pairs `(i + 1, node_map[i])`
+through the same checks and relabelling as the list-of-pairs branch. -/
+def remapGraphList (H : LGraph) (order : List Nat) : Except Err LGraph :=
+  remapGraph H ((List.range' 1 order.length).zip order)
+
 def natLe (a b : Nat) : Bool := decide (a ≤ b)
 
 /-- The repair of F23 in `canonicalise`: product atoms without a reactant partner (`n not in paired`,
